@@ -2,6 +2,7 @@ package rhpc
 
 import (
 	"fmt"
+	"os"
 	"sync"
 	"time"
 
@@ -155,7 +156,11 @@ func NewRealHost(hostKey types.PrivateKey, cm *chain.Manager, w rhp4.Wallet, set
 	rh.Server = rhp4.NewServer(hostKey, cm, rh.Contractor, w, rh.Settings, rh.Sectors, rhp4.WithPriceTableValidity(30*time.Minute))
 	go func() {
 		defer close(rh.done)
-		rh.Server.Serve(rh.T, zap.NewNop())
+		log := zap.NewNop()
+		if os.Getenv("VERIF_RHP_LOG") != "" { // debugging aid: server-side errors
+			log, _ = zap.NewDevelopment()
+		}
+		rh.Server.Serve(rh.T, log)
 	}()
 	return rh
 }
